@@ -268,6 +268,63 @@ func (x *Exec) havocHeapsMatching(st *State, pats []string) {
 	}
 }
 
+// heapAxiom: every value stored in a heap array of an integer-like leaf lies in
+// the range of its Go type (a type invariant of memory). Stated once per heap
+// version as a quantified fact so that it is available for every index, also
+// under binders.
+func (x *Exec) heapAxiom(constName, heapName, sort string) {
+	if len(heapName) < 3 || (heapName[:2] != "A_" && heapName[:2] != "H_") {
+		return
+	}
+	rest := heapName[2:]
+	var bestKey string
+	for k := range typeKeyReg {
+		if strings.HasPrefix(rest, k+"_") && len(k) > len(bestKey) {
+			bestKey = k
+		}
+	}
+	if bestKey == "" {
+		return
+	}
+	t := typeKeyReg[bestKey]
+	leaf := rest[len(bestKey)+1:]
+	names := leafNames(t)
+	rs := leafRanges(t)
+	j := -1
+	for i, n := range names {
+		if n == leaf {
+			j = i
+		}
+	}
+	if j < 0 || j >= len(rs) || (rs[j].lo == "" && rs[j].hi == "") {
+		return
+	}
+	depth := strings.Count(sort, "(Array Int")
+	want := 1 + rs[j].extra
+	if heapName[:2] == "A_" {
+		want = 2 + rs[j].extra
+	}
+	if depth != want {
+		return
+	}
+	x.vc.nfresh++
+	term := constName
+	var binders []string
+	for d := 0; d < depth; d++ {
+		v := fmt.Sprintf("h!%d_%d", x.vc.nfresh, d)
+		binders = append(binders, "("+v+" Int)")
+		term = tSel(term, v)
+	}
+	var cs []string
+	if rs[j].lo != "" {
+		cs = append(cs, tCmp("<=", rs[j].lo, term))
+	}
+	if rs[j].hi != "" {
+		cs = append(cs, tCmp("<=", term, rs[j].hi))
+	}
+	x.vc.assumeGlobal("(forall (" + strings.Join(binders, " ") + ") (! " + tAnd(cs...) + " :pattern (" + term + ")))")
+}
+
 // rowHavoc: a heap equal to `from` everywhere except at reference `row` and at
 // references allocated after `top`.
 func (x *Exec) rowHavoc(name, sort, from, row, top string) string {
